@@ -23,6 +23,12 @@ theorem evalRV_cases (s : St) (r : RV) :
     | some v =>
       exact Or.inr ⟨v, s.next, by simp [evalRV, h], by simp [Spec.Val.evalRV, abs_read, h], Nat.le_refl _,
         fun i hi => Or.inl (read_inner s p v h i hi)⟩
+  | call p =>
+    cases h : readPlace s p with
+    | none => exact Or.inl ⟨by simp [evalRV, h], by simp [Spec.Val.evalRV, abs_read, h]⟩
+    | some v =>
+      exact Or.inr ⟨v, s.next, by simp [evalRV, h], by simp [Spec.Val.evalRV, abs_read, h], Nat.le_refl _,
+        fun i hi => Or.inl (read_inner s p v h i hi)⟩
   | lit l =>
     have := alloc_spec s l s.next
     cases h : Lit.alloc .fixed s l s.next with
